@@ -98,11 +98,17 @@ type c33state struct {
 	heights map[uint64]uint64 // label -> header height
 	mainIdx map[uint64]uint64 // height -> label
 	wf      bool              // the chain is consistent (oracle applies)
+	mgr     *chainmgr.Manager // handler level (c33h.go)
+	peer    *c33peer
 }
+
+var c33tx = types.NewTx(types.TxData{Version: 1,
+	Inputs:  []*types.TxInput{types.NewCoinbaseInput([]byte{1, 2, 3})},
+	Outputs: []*types.TxOutput{types.NewOriginalTxOutput(bc.AssetID{V0: 9999}, 1, []byte{0x51}, nil)}})
 
 func c33block(label, height uint64) *types.Block {
 	return &types.Block{BlockHeader: types.BlockHeader{Version: 1, Height: height, Timestamp: 1000000 + label,
-		PreviousBlockHash: bc.Hash{V0: label, V1: height}}}
+		PreviousBlockHash: bc.Hash{V0: label, V1: height}}, Transactions: []*types.Tx{c33tx}}
 }
 
 func (s *c33state) hashOf(label uint64) *bc.Hash {
@@ -214,6 +220,8 @@ func c33exec(c *Ctx, s *c33state, line string) {
 	case "nobody":
 		s.own.nobody[*s.hashOf(u(1))] = true
 		c.Op(line, "ok")
+	case "hh", "hb", "gb", "gm":
+		c33handler(c, s, line, w, u)
 	case "lh", "lb":
 		if s.backend == "mock" {
 			c33mockSides(s)
@@ -488,11 +496,12 @@ func c33gen(c *Ctx) []string {
 		}
 		out = append(out, fmt.Sprintf("lh %d %d %d%s", skip, maxNum, stop, ls))
 	}
+	out = append(out, c33genHandlers(c, mainL, sideL, pick, unknown)...)
 	return out
 }
 
 func runC33(c *Ctx) {
-	c.Rule = "chains of 1–200 main blocks with side blocks at arbitrary heights on two Chain backends (harness-controlled maps incl. inconsistent index / holes / missing bodies; the repository's test/mock.Chain); locators of 0–6 entries mixing main, side and unknown hashes, sorted and unsorted; stop on/off chain; skip from {0,1,…,2^32,2^63,2^64-51…2^64-1,random}; maxNum 1…1000; locateBlocks with timeouts. A case is distinct by its query line with a non-empty response."
+	c.Rule = "chains of 1–200 main blocks with side blocks at arbitrary heights on two Chain backends (harness-controlled maps incl. inconsistent index / holes / missing bodies; the repository's test/mock.Chain); locators of 0–6 entries mixing main, side and unknown hashes, sorted and unsorted; stop on/off chain; skip from {0,1,…,2^32,2^63,2^64-51…2^64-1,random}; maxNum 1…1000; locateBlocks with timeouts; the request HANDLERS (get-headers, get-blocks, get-block, get-merkle-block) driven through decodeMessage + processMsg with a recording peer on the shapes: stop below / at start, stop on a side chain, unknown stop, empty locator, locator off the main chain, huge skip. A case is distinct by its query line with a non-empty response."
 	s := &c33state{}
 	s.reset("own")
 	lines := c.CorpusLines()
